@@ -350,6 +350,35 @@ Definition new_authorize_request (cfg : config) (lookup : string -> option clien
       end
   end.
 
+(* NewPushedAuthorizeRequest for a request whose sender authenticates correctly as the client its client_id names
+   (pushed_authorize_request_handler.go, then newAuthorizeRequest(ctx, r, true)): a request_uri parameter is refused
+   at once; a request object is processed as at the authorization endpoint, except that one carrying a request_uri
+   claim is refused; the stored PAR sessions and the enforcement switch play no part *)
+Definition ro_process_par (cl : client) (rq : request) : ro_outcome :=
+  match ro_process cl rq with
+  | RoUse claims => if negb (String.eqb (fget "request_uri" claims) "") then RoErr "invalid_request_object" else RoUse claims
+  | x => x
+  end.
+
+Definition new_pushed_authorize_request (cfg : config) (lookup : string -> option client) (rq : request)
+  : areq * option string :=
+  let f0 := q_form rq in
+  let ar0 := areq0 f0 in
+  match lookup (fget "client_id" f0) with
+  | None => (ar0, Some "invalid_client")
+  | Some cl =>
+      let ar1 := with_client ar0 (Some cl) in
+      if negb (String.eqb (fget "request_uri" f0) "") then (ar1, Some "invalid_request")
+      else
+      match ro_process_par cl rq with
+      | RoErr e => (ar1, Some e)
+      | RoSkip => nar_validate cfg cl rq ar1 f0
+      | RoUse claims =>
+          let f := ro_apply claims f0 in
+          nar_validate cfg cl rq (with_form ar1 f (fget "state" f)) f
+      end
+  end.
+
 (* ------------------------------------------------------------------ sessions, time *)
 Record session := {
   s_oidc : bool;                 (* the session implements openid.Session *)
